@@ -2027,6 +2027,47 @@ func (c *compiler) evaluateAssignableOrReference(ass ast.Assigneable, as_ref boo
 	return nil, nil, nil
 }
 
+// reports wether the argument for paramName is a local non-reference variable
+// that is not also reachable by the callee through a reference argument of the same call,
+// i.e. wether the callee can not observe a change of it
+func (c *compiler) isPrivateArgument(e *ast.FuncCall, paramName string) bool {
+	arg := e.Args[paramName]
+	for grouping, ok := arg.(*ast.Grouping); ok; grouping, ok = arg.(*ast.Grouping) {
+		arg = grouping.Expr
+	}
+	ident, ok := arg.(*ast.Ident)
+	if !ok {
+		return false
+	}
+	decl, ok := ident.Declaration.(*ast.VarDecl)
+	if !ok || decl.IsGlobal || c.scp.lookupVar(decl).isRef {
+		return false
+	}
+
+	var root func(expr ast.Expression) ast.Declaration
+	root = func(expr ast.Expression) ast.Declaration {
+		switch expr := expr.(type) {
+		case *ast.Ident:
+			return expr.Declaration
+		case *ast.Indexing:
+			return root(expr.Lhs)
+		case *ast.FieldAccess:
+			return root(expr.Rhs)
+		case *ast.CastAssigneable:
+			return root(expr.Lhs)
+		case *ast.Grouping:
+			return root(expr.Expr)
+		}
+		return nil
+	}
+	for _, param := range e.Func.Parameters {
+		if param.Type.IsReference && root(e.Args[param.Name.Literal]) == ast.Declaration(decl) {
+			return false
+		}
+	}
+	return true
+}
+
 func (c *compiler) VisitFuncCall(e *ast.FuncCall) ast.VisitResult {
 	mangledName := c.mangledNameDecl(e.Func)
 	_, alreadyPresent := c.functions[mangledName] // retreive the function (the resolver took care that it is present)
@@ -2072,9 +2113,19 @@ func (c *compiler) VisitFuncCall(e *ast.FuncCall) ast.VisitResult {
 			}
 		} else {
 			eval, valTyp, isTemp := c.evaluate(e.Args[param.Name.Literal]) // compile each argument for the function
-			if valTyp.IsPrimitive() ||
-				(!ast.IsExternFunc(fun.funcDecl) && c.optimizationLevel >= 2 && meta.IsConst[param.Name.Literal]) {
+			if valTyp.IsPrimitive() {
 				val = eval
+			} else if !ast.IsExternFunc(fun.funcDecl) && c.optimizationLevel >= 2 && meta.IsConst[param.Name.Literal] {
+				// the callee neither copies nor frees a constant parameter
+				if isTemp || c.isPrivateArgument(e, param.Name.Literal) {
+					val = eval
+				} else {
+					// the value might change while the callee runs (it is a global, is reached through a reference
+					// or is also passed as reference), so the callee gets a copy that the caller frees afterwards
+					dest := c.NewAlloca(valTyp.IrType())
+					c.deepCopyInto(dest, eval, valTyp)
+					val, _ = c.scp.addTemporary(dest, valTyp)
+				}
 			} else { // function parameters need to be copied by the caller
 				dest := c.NewAlloca(valTyp.IrType())
 				c.claimOrCopy(dest, eval, valTyp, isTemp)
